@@ -83,12 +83,14 @@ Lemma split_agree n d : 0 <= n ->
 Proof. intros Hn. pose proof (split_agree_nat (Z.to_nat n) d) as H. rewrite Z2Nat.id in H by lia. exact H. Qed.
 
 (* ---------- the option loop: guarded decoder vs grammar-shaped reference ---------- *)
+Ltac rej := eexists; split; [reflexivity|discriminate].
+
 Lemma loop_agree defs reg :
   (forall id len, 0 <= len < W32 -> option_keep defs id len = legal_len reg id len) ->
   forall fuel rfuel data prev processed len cap acc,
   bytes_ok data = true -> 0 <= prev <= 65535 -> (length data < fuel)%nat -> (length data <= rfuel)%nat ->
   match ref_options rfuel reg prev data with
-  | None => exists e, unmarshal_opts fuel defs data prev processed len cap acc = Err e
+  | None => exists e, unmarshal_opts fuel defs data prev processed len cap acc = Err e /\ (e = EOptCap -> cap < len + blen data)
   | Some (os, pay) =>
       (unmarshal_opts fuel defs data prev processed len cap acc = Err EOptCap /\ cap < len + blen data) \/
       (unmarshal_opts fuel defs data prev processed len cap acc = Ok (processed + (blen data - blen pay), acc ++ os)
@@ -107,37 +109,38 @@ Proof.
   cbv zeta. rewrite land15 by lia. unfold ExtendOptionError.
   assert (Hdn : 0 <= b / 16 <= 15) by lia. assert (Hln : 0 <= b mod 16 <= 15) by lia.
   destruct (b / 16 =? 15) eqn:Ed.
-  { apply Z.eqb_eq in Ed. rewrite Ed, ref_ext_15. cbn [orb]. eexists. reflexivity. }
+  { apply Z.eqb_eq in Ed. rewrite Ed, ref_ext_15. cbn [orb]. rej. }
   apply Z.eqb_neq in Ed. cbn [orb].
   pose proof (ext_agree (b / 16) d1 ltac:(lia) Hb1) as A1.
   destruct (b mod 16 =? 15) eqn:El.
-  { apply Z.eqb_eq in El. rewrite El. destruct (ref_ext (b / 16) d1) as [[delta d2]|]; [rewrite ref_ext_15|]; eexists; reflexivity. }
+  { apply Z.eqb_eq in El. rewrite El. destruct (ref_ext (b / 16) d1) as [[delta d2]|]; [rewrite ref_ext_15|]; rej. }
   apply Z.eqb_neq in El. rewrite sl_from_1. cbn [bind].
-  destruct (ref_ext (b / 16) d1) as [[delta d2]|]; [|rewrite A1; cbn [bind]; eexists; reflexivity].
+  destruct (ref_ext (b / 16) d1) as [[delta d2]|]; [|rewrite A1; cbn [bind]; rej].
   destruct A1 as (proc1 & P1 & S1 & Hp1 & L1 & Hv1 & Sf1). rewrite P1. cbn [bind]. cbv iota beta. rewrite S1. cbn [bind].
   pose proof (suffix_bytes_ok _ _ Sf1 Hb1) as Hb2.
   pose proof (ext_agree (b mod 16) d2 ltac:(lia) Hb2) as A2.
-  destruct (ref_ext (b mod 16) d2) as [[olen d3]|]; [|rewrite A2; cbn [bind]; eexists; reflexivity].
+  destruct (ref_ext (b mod 16) d2) as [[olen d3]|]; [|rewrite A2; cbn [bind]; rej].
   destruct A2 as (proc2 & P2 & S2 & Hp2 & L2 & Hv2 & Sf2). rewrite P2. cbn [bind]. cbv iota beta. rewrite S2. cbn [bind].
   pose proof (suffix_bytes_ok _ _ Sf2 Hb2) as Hb3.
   pose proof (split_agree olen d3 ltac:(lia)) as A3.
-  destruct (split_at (Z.to_nat olen) d3) as [[v d4]|]; [|tt (blen d3 <? olen); eexists; reflexivity].
+  destruct (split_at (Z.to_nat olen) d3) as [[v d4]|]; [|tt (blen d3 <? olen); rej].
   destruct A3 as (T3 & S3 & Lv & L3 & E3). pose proof (blen_nonneg d4) as Hd4. ff (blen d3 <? olen).
   ff (prev + delta <? 0). rewrite orb_false_r.
-  destruct (prev + delta >? 65535) eqn:Eo; [eexists; reflexivity|]. rewrite Z.gtb_ltb in Eo. apply Z.ltb_ge in Eo.
+  destruct (prev + delta >? 65535) eqn:Eo; [rej|]. rewrite Z.gtb_ltb in Eo. apply Z.ltb_ge in Eo.
   rewrite T3. cbn [bind]. rewrite Lv.
   assert (Hb4 : bytes_ok d4 = true) by (rewrite E3 in Hb3; apply bytes_ok_app in Hb3; tauto).
   assert (Hlen4 : (length d4 <= rf)%nat /\ (length d4 < f)%nat).
   { unfold blen in *. lia. }
   destruct Hlen4 as [Hrf4 Hf4].
   destruct (cap =? len) eqn:Ec.
-  { apply Z.eqb_eq in Ec. destruct (ref_options rf reg (prev + delta) d4) as [[os pay]|]; [left; split; [reflexivity|lia]|eexists; reflexivity]. }
+  { apply Z.eqb_eq in Ec. destruct (ref_options rf reg (prev + delta) d4) as [[os pay]|]; [left; split; [reflexivity|lia]|eexists; split; [reflexivity|intros _; lia]]. }
   rewrite S3. cbn [bind].
   rewrite (Hk (prev + delta) olen) by (unfold W32; lia).
   set (app := legal_len reg (prev + delta) olen && negb (prev + delta =? 0)).
   specialize (IH rf d4 (prev + delta) (processed + 1 + proc1 + proc2 + olen) (if app then len + 1 else len) cap
                  (if app then acc ++ [(prev + delta, v)] else acc) Hb4 ltac:(lia) Hf4 Hrf4).
-  destruct (ref_options rf reg (prev + delta) d4) as [[os pay]|]; [|exact IH].
+  destruct (ref_options rf reg (prev + delta) d4) as [[os pay]|];
+    [|destruct IH as [e [IH1 IH2]]; exists e; split; [exact IH1|intros He; specialize (IH2 He); destruct app; lia]].
   destruct IH as [[IH1 IH2]|[IH1 IH2]].
   - left. split; [exact IH1|]. destruct app; lia.
   - right. split.
@@ -150,26 +153,26 @@ Qed.
 (* ---------- datagram decoder vs reference ---------- *)
 Theorem udp_agree cap bs : bytes_ok bs = true ->
   match ref_udp bs with
-  | None => exists e, udp_decode cap bs = Err e
+  | None => exists e, udp_decode cap bs = Err e /\ (e = EOptCap -> cap < blen bs)
   | Some m => udp_decode cap bs = Ok (m, blen bs) \/ (udp_decode cap bs = Err EOptCap /\ cap < blen bs)
   end.
 Proof.
   intros Hb. unfold ref_udp, udp_decode.
-  destruct bs as [|b0 [|code [|m1 [|m0 r]]]]; try (eexists; reflexivity).
+  destruct bs as [|b0 [|code [|m1 [|m0 r]]]]; try rej.
   apply bytes_ok_cons in Hb. destruct Hb as [H0 Hb]. apply bytes_ok_cons in Hb. destruct Hb as [H1 Hb].
   apply bytes_ok_cons in Hb. destruct Hb as [H2 Hb]. apply bytes_ok_cons in Hb. destruct Hb as [H3 Hb].
   rewrite !blen_cons. pose proof (blen_nonneg r) as Hr. ff (1 + (1 + (1 + (1 + blen r))) <? 4).
   rewrite idx_0. cbn [bind].
-  destruct (b0 / 64 =? 1) eqn:Ev; cbn [negb]; [|eexists; reflexivity].
+  destruct (b0 / 64 =? 1) eqn:Ev; cbn [negb]; [|rej].
   rewrite land3 by lia. rewrite land15 by lia.
   destruct (9 <=? b0 mod 16) eqn:Et.
-  { apply Z.leb_le in Et. tt (b0 mod 16 >? 8). eexists. reflexivity. }
+  { apply Z.leb_le in Et. tt (b0 mod 16 >? 8). rej. }
   apply Z.leb_gt in Et. ff (b0 mod 16 >? 8). rewrite idx_1. cbn [bind].
   rewrite (sl_to_app [b0; code; m1; m0] r : sl_to (b0 :: code :: m1 :: m0 :: r) 4 = Ok [b0; code; m1; m0]).
   cbn [bind]. rewrite sl_from_2. cbn [bind]. rewrite idx_0, idx_1. cbn [bind].
   rewrite sl_from_4. cbn [bind].
   pose proof (split_agree (b0 mod 16) r ltac:(lia)) as A.
-  destruct (split_at (Z.to_nat (b0 mod 16)) r) as [[tok r']|]; [|tt (blen r <? b0 mod 16); eexists; reflexivity].
+  destruct (split_at (Z.to_nat (b0 mod 16)) r) as [[tok r']|]; [|tt (blen r <? b0 mod 16); rej].
   destruct A as (T & Sf & Lt & Lr & E). pose proof (blen_nonneg r') as Hr'. ff (blen r <? b0 mod 16).
   rewrite T, Sf. cbn [bind].
   assert (Hb' : bytes_ok r' = true) by (rewrite E in Hb; apply bytes_ok_app in Hb; tauto).
@@ -179,7 +182,7 @@ Proof.
     + right. rewrite L1. cbn [bind]. split; [reflexivity|]. lia.
     + left. rewrite L1. cbn [bind]. cbv iota beta. rewrite Z.add_0_l. rewrite (suffix_sl_from _ _ L2). cbn [bind].
       reflexivity.
-  - destruct L as [e L]. rewrite L. cbn [bind]. eexists. reflexivity.
+  - destruct L as [e [L LC]]. rewrite L. cbn [bind]. exists e. split; [reflexivity|intros He; specialize (LC He); lia].
 Qed.
 
 (* totality and safety of the datagram decoder: it returns (bounded recursion:
@@ -189,7 +192,7 @@ Theorem udp_total cap bs : bytes_ok bs = true ->
 Proof.
   intros Hb. pose proof (udp_agree cap bs Hb) as A. destruct (ref_udp bs) as [m|].
   - destruct A as [A|[A _]]; [left; exists m; exact A|right; eexists; exact A].
-  - right. exact A.
+  - right. destruct A as [e [A _]]. exists e. exact A.
 Qed.
 
 (* what the reference accepts is well-formed *)
@@ -258,7 +261,7 @@ Proof.
   intros Hb H. pose proof (udp_agree cap bs Hb) as A. destruct (ref_udp bs) as [m'|] eqn:ER.
   - destruct A as [A|[A _]]; rewrite A in H; [|discriminate]. injection H as <- <-.
     split; [apply (ref_udp_wf bs); assumption|split; reflexivity].
-  - destruct A as [e A]. rewrite A in H. discriminate.
+  - destruct A as [e [A _]]. rewrite A in H. discriminate.
 Qed.
 
 (* canonicalisation: an accepted message re-encodes, and the re-encoding decodes to the same message *)
@@ -273,4 +276,58 @@ Proof.
   - rewrite udp_encode_spec; [|exact W|unfold blen; rewrite repeat_length; lia].
     unfold overwrite. rewrite skipn_all2 by (rewrite repeat_length; lia). rewrite app_nil_r. reflexivity.
   - intros cap' Hc. apply udp_decode_spec; assumption.
+Qed.
+
+(* ---------- the pooled capacity-retry loop terminates ---------- *)
+Section Retry.
+  Variable dec : Z -> list Z -> res (msg * Z).
+  Variable bs : list Z.
+  (* the decoder asks for more capacity only while the capacity is below the input length,
+     and is itself total *)
+  Hypothesis dec_cap : forall cap, dec cap bs = Err EOptCap -> cap < blen bs.
+  Hypothesis dec_total : forall cap, dec cap bs <> Fuel.
+
+  Lemma grow_cap_ge cap : 0 <= cap -> 16 <= grow_cap cap /\ 2 * cap <= grow_cap cap.
+  Proof. unfold grow_cap. lia. Qed.
+
+  Lemma pool_decode_bounded : forall f cap, 0 < cap -> blen bs <= cap * 2 ^ Z.of_nat f ->
+    pool_decode (S f) dec cap bs <> Fuel.
+  Proof.
+    induction f as [|f IH]; intros cap Hc Hb.
+    - cbn [pool_decode]. change (2 ^ Z.of_nat 0) with 1 in Hb.
+      destruct (dec cap bs) as [[m n]|e| |] eqn:E; try discriminate.
+      + destruct e; try discriminate. apply dec_cap in E. lia.
+      + exfalso. exact (dec_total cap E).
+    - cbn [pool_decode]. destruct (dec cap bs) as [[m n]|e| |] eqn:E; try discriminate.
+      + destruct e; try discriminate. apply IH.
+        * pose proof (grow_cap_ge cap ltac:(lia)). lia.
+        * pose proof (grow_cap_ge cap ltac:(lia)) as [_ G]. rewrite Nat2Z.inj_succ, Z.pow_succ_r in Hb by lia.
+          assert (0 < 2 ^ Z.of_nat f) by (apply Z.pow_pos_nonneg; lia). nia.
+      + exfalso. exact (dec_total cap E).
+  Qed.
+
+  (* from any capacity >= 0 (0 included: the F8 situation) *)
+  Theorem pool_decode_terminates : forall cap, 0 <= cap -> pool_decode (pool_fuel bs) dec cap bs <> Fuel.
+  Proof.
+    intros cap Hc. unfold pool_fuel. set (L := Z.log2_up (blen bs + 2)).
+    pose proof (blen_nonneg bs) as Hb.
+    assert (HL : blen bs + 2 <= 2 ^ L) by (apply Z.log2_up_spec; lia).
+    assert (L0 : 0 <= L) by apply Z.log2_up_nonneg.
+    cbn [pool_decode]. destruct (dec cap bs) as [[m n]|e| |] eqn:E; try discriminate.
+    - destruct e; try discriminate. apply pool_decode_bounded.
+      + pose proof (grow_cap_ge cap Hc). lia.
+      + rewrite Z2Nat.id by lia. pose proof (grow_cap_ge cap Hc) as [G _].
+        assert (0 < 2 ^ L) by (apply Z.pow_pos_nonneg; lia). nia.
+    - exfalso. exact (dec_total cap E).
+  Qed.
+End Retry.
+
+Theorem udp_retry_terminates bs cap : bytes_ok bs = true -> 0 <= cap ->
+  pool_decode (pool_fuel bs) udp_decode cap bs <> Fuel.
+Proof.
+  intros Hb Hc. apply pool_decode_terminates; [| |exact Hc].
+  - intros c E. pose proof (udp_agree c bs Hb) as A. destruct (ref_udp bs).
+    + destruct A as [A|[_ A]]; [rewrite A in E; discriminate|exact A].
+    + destruct A as [e [A AC]]. rewrite A in E. injection E as ->. apply AC. reflexivity.
+  - intros c E. destruct (udp_total c bs Hb) as [[m T]|[e T]]; rewrite T in E; discriminate.
 Qed.
